@@ -17,8 +17,20 @@ import (
 // Panics on invalid input, since the tokenizer is supposed to guarantee
 // valid input.
 func parseInt(s []byte) int64 {
+	v, err := tryParseInt(s)
+	if err != "" {
+		panic(err)
+	}
+	return v
+}
+
+// tryParseInt parses bytes as a 64-bit signed decimal integer.
+//
+// Returns a non-empty error message if s is not a decimal integer which
+// fits in 64 bits.
+func tryParseInt(s []byte) (int64, string) {
 	if len(s) == 0 {
-		panic("Empty string can't be parsed as int.")
+		return 0, "Empty string can't be parsed as int."
 	}
 	neg := false
 	if s[0] == '+' {
@@ -28,24 +40,24 @@ func parseInt(s []byte) int64 {
 		s = s[1:]
 	}
 	if len(s) == 0 {
-		panic("Sign alone can't be parsed as int.")
+		return 0, "Sign alone can't be parsed as int."
 	}
 	const cutoff = 1 << 63
 	var n uint64
 	for _, c := range s {
 		if c < '0' || c > '9' {
-			panic("invalid character in int string " + string(s))
+			return 0, "invalid character in int string " + string(s)
 		}
 		n1 := 10*n + uint64(c-'0')
 		if n1 < n || n1 > cutoff || (!neg && n1 == cutoff) {
-			panic("integer overflow parsing " + string(s))
+			return 0, "integer overflow parsing " + string(s)
 		}
 		n = n1
 	}
 	if neg {
-		return -int64(n)
+		return -int64(n), ""
 	} else {
-		return int64(n)
+		return int64(n), ""
 	}
 }
 
